@@ -148,6 +148,11 @@ def _error_evidence(prop, a, seed, t0, mod, status, msg):
 
 if __name__ == "__main__":
     try:
+        import signal
+        signal.signal(signal.SIGPIPE, signal.SIG_DFL)   # behave like a unix filter when the reader goes away
+    except Exception:
+        pass
+    try:
         rc = main()
     except SystemExit:
         raise
